@@ -311,4 +311,288 @@ theorem dim_expansion (tags : List Str) :
   · intro t
     rw [(sortStrs_perm _).mem_iff, mem_dedup]
 
+/-! ## Function calls -/
+
+/-- What happens to a field that is a call, by the first argument `arg` of the innermost call
+`iname` along the first arguments: `*` / `*::field` / a regex expand, `*::tag` is an error,
+anything else (or no argument) leaves the field alone. -/
+theorem expandField_call (re : Str → Str → Bool) (refs : List ColRef) (f : Field) (cname : Str)
+    (cargs : List Expr) (hf : f.expr = .call cname cargs) :
+    expandField re refs f =
+      match innerCall (.call cname cargs) with
+      | some (iname, some (.wildcard wt)) =>
+        if wt = .TAG then .error (errTagWildcard ++ iname ++ ['(', ')'])
+        else .ok (callFields refs f.name (.call cname cargs) iname (fun _ => true))
+      | some (iname, some (.regex src)) =>
+        .ok (callFields refs f.name (.call cname cargs) iname (fun r => re src r.name))
+      | _ => .ok [f] := by
+  unfold expandField
+  rw [hf]
+  simp only
+  cases innerCall (.call cname cargs) with
+  | none => rfl
+  | some p =>
+    obtain ⟨iname, arg⟩ := p
+    cases arg with
+    | none => rfl
+    | some a => cases a <;> rfl
+
+/-- **Tags are left out of function calls.** Every field a call with a wildcard or regex first
+argument expands to comes from a column of the expansion that is not a tag, has a type the
+function supports, and matches the regex; the column, with its schema type, is substituted for
+the wildcard and the field is aliased `<name>_<column>`. -/
+theorem tags_not_in_calls (refs : List ColRef) (fname : Str) (e : Expr) (iname : Str) (keep : ColRef → Bool)
+    (g : Field) (hg : g ∈ callFields refs fname e iname keep) :
+    ∃ r ∈ refs, r.type ≠ .Tag ∧ r.type.toNat ∈ callSupportedTypes iname ∧ keep r = true ∧
+      g = { expr := substInner (.varRef r.name r.type) e, alias := fname ++ ['_'] ++ r.name } := by
+  unfold callFields at hg
+  rw [List.mem_map] at hg
+  obtain ⟨r, hr, rfl⟩ := hg
+  rw [List.mem_filter] at hr
+  simp only [ne_eq, Bool.and_eq_true, decide_eq_true_eq, List.contains_eq_mem] at hr
+  exact ⟨r, hr.1, by simpa using hr.2.1.1, hr.2.1.2, hr.2.2, rfl⟩
+
+/-- ... and conversely every such column yields a field, in the order of the expansion. -/
+theorem call_expansion_complete (refs : List ColRef) (fname : Str) (e : Expr) (iname : Str) (keep : ColRef → Bool) :
+    (callFields refs fname e iname keep).map (fun g => g.alias) =
+      (refs.filter (fun r => r.type ≠ .Tag && (callSupportedTypes iname).contains r.type.toNat && keep r)).map
+        (fun r => fname ++ ['_'] ++ r.name) := by
+  unfold callFields
+  rw [List.map_map]
+  rfl
+
+/-- The types a call expands over are field types (never `Tag`, `Unknown`, `AnyField`, `Time`,
+`Duration`), whatever the function. -/
+theorem call_expansion_types (iname : Str) (t : Nat) (h : t ∈ callSupportedTypes iname) :
+    t ∈ [DataType.Float.toNat, DataType.Integer.toNat, DataType.String.toNat, DataType.Boolean.toNat,
+         DataType.Unsigned.toNat] := by
+  have hb : ∀ t ∈ callBaseTypes, t ∈ [1, 2, 3, 4, 9] := by decide
+  have hc : ∀ c ∈ callTypeCases, ∀ t ∈ c.2, t ∈ [1, 2, 3, 4, 9] := by decide
+  unfold callSupportedTypes at h
+  split at h
+  · rename_i c hfind
+    exact hc c (List.mem_of_find?_eq_some hfind) t h
+  · exact hb t h
+
+theorem innerArgs_isSome (name : Str) (args : List Expr) : ∃ p, innerArgs name args = some p := by
+  cases args with
+  | nil => exact ⟨_, by rw [innerArgs]⟩
+  | cons x rest =>
+    rw [innerArgs]
+    cases innerCall x <;> exact ⟨_, rfl⟩
+
+mutual
+  /-- The substitution lands exactly on the first argument of the innermost call. -/
+  theorem innerCall_substInner (r : Expr) (hr : innerCall r = none) :
+      ∀ (e : Expr) (iname : Str) (a : Expr), innerCall e = some (iname, some a) →
+        innerCall (substInner r e) = some (iname, some r)
+    | .call name args, iname, a, h => by
+      rw [substInner, innerCall]
+      rw [innerCall] at h
+      exact innerArgs_substInner r hr args name iname a h
+    | .binary .., _, _, h | .paren .., _, _, h | .varRef .., _, _, h | .distinct .., _, _, h
+    | .wildcard .., _, _, h | .regex .., _, _, h | .string .., _, _, h | .number .., _, _, h
+    | .integer .., _, _, h | .unsigned .., _, _, h | .boolean .., _, _, h | .duration .., _, _, h
+    | .time .., _, _, h | .nil, _, _, h | .list .., _, _, h | .boundParam .., _, _, h => by
+      simp [innerCall] at h
+  theorem innerArgs_substInner (r : Expr) (hr : innerCall r = none) :
+      ∀ (args : List Expr) (name iname : Str) (a : Expr), innerArgs name args = some (iname, some a) →
+        innerArgs name (substInnerArgs r args) = some (iname, some r)
+    | [], name, iname, a, h => by simp [innerArgs] at h
+    | x :: rest, name, iname, a, h => by
+      have ih := innerCall_substInner r hr x
+      rw [innerArgs] at h
+      cases hx : innerCall x with
+      | some p =>
+        rw [hx] at h
+        simp only [Option.some.injEq] at h
+        subst h
+        have hcall : ∃ n as, x = .call n as := by
+          cases x <;> first | exact ⟨_, _, rfl⟩ | simp [innerCall] at hx
+        obtain ⟨n, as, rfl⟩ := hcall
+        rw [substInnerArgs, innerArgs, ih iname a hx]
+      | none =>
+        rw [hx] at h
+        simp only [Option.some.injEq, Prod.mk.injEq] at h
+        obtain ⟨rfl, rfl⟩ := h
+        have hsub : substInnerArgs r (x :: rest) = r :: rest := by
+          cases x <;> first | rfl | skip
+          rename_i n as
+          rw [innerCall] at hx
+          obtain ⟨p, hp⟩ := innerArgs_isSome n as
+          rw [hp] at hx
+          cases hx
+        rw [hsub, innerArgs, hr]
+end
+
+/-! ## All other fields stay in place -/
+
+/-- Does the field stand for a set of columns: a whole-field `*` / regex, or a call whose
+innermost first argument is one? -/
+def expands (f : Field) : Bool :=
+  match f.expr with
+  | .wildcard _ => true
+  | .regex _ => true
+  | .call n a =>
+    match innerCall (.call n a) with
+    | some (_, some (.wildcard _)) => true
+    | some (_, some (.regex _)) => true
+    | _ => false
+  | _ => false
+
+/-- A field that does not stand for a set of columns is kept as it is (or, for a binary
+expression that contains a wildcard or regex somewhere, the whole rewrite fails). -/
+theorem other_field_kept (re : Str → Str → Bool) (refs : List ColRef) (f : Field) (out : List Field)
+    (h : expandField re refs f = .ok out) (hne : expands f = false) : out = [f] := by
+  unfold expands at hne
+  unfold expandField at h
+  split at h
+  · simp_all
+  · simp_all
+  · rename_i cname cargs heq
+    rw [heq] at hne
+    simp only at hne h
+    cases hic : innerCall (.call cname cargs) with
+    | none => rw [hic] at h; simp only [Except.ok.injEq] at h; exact h.symm
+    | some p =>
+      obtain ⟨iname, arg⟩ := p
+      rw [hic] at h hne
+      cases arg with
+      | none => simp only [Except.ok.injEq] at h; exact h.symm
+      | some a =>
+        cases a <;> simp only [Except.ok.injEq] at h hne <;> first | exact h.symm | cases hne
+  · split at h
+    · cases h
+    · split at h
+      · cases h
+      · simp only [Except.ok.injEq] at h; exact h.symm
+  · simp only [Except.ok.injEq] at h; exact h.symm
+
+/-- `expandFields` is the concatenation, in field order, of what each field expands to. -/
+theorem expandFields_split (re : Str → Str → Bool) (refs : List ColRef) :
+    ∀ (pre : List Field) (f : Field) (post : List Field) (out : List Field),
+      expandFields re refs (pre ++ f :: post) = .ok out →
+      ∃ o1 o2 o3, expandFields re refs pre = .ok o1 ∧ expandField re refs f = .ok o2 ∧
+        expandFields re refs post = .ok o3 ∧ out = o1 ++ o2 ++ o3
+  | [], f, post, out, h => by
+    simp only [List.nil_append] at h
+    unfold expandFields at h
+    cases hf : expandField re refs f with
+    | error e => rw [hf] at h; cases h
+    | ok o2 =>
+      rw [hf] at h
+      simp only at h
+      cases hp : expandFields re refs post with
+      | error e => rw [hp] at h; cases h
+      | ok o3 =>
+        rw [hp] at h
+        simp only [Except.ok.injEq] at h
+        exact ⟨[], o2, o3, rfl, rfl, rfl, by rw [← h]; rfl⟩
+  | g :: pre, f, post, out, h => by
+    rw [List.cons_append] at h
+    unfold expandFields at h
+    cases hg : expandField re refs g with
+    | error e => rw [hg] at h; cases h
+    | ok og =>
+      rw [hg] at h
+      simp only at h
+      cases hr : expandFields re refs (pre ++ f :: post) with
+      | error e => rw [hr] at h; cases h
+      | ok orest =>
+        rw [hr] at h
+        simp only [Except.ok.injEq] at h
+        obtain ⟨o1, o2, o3, h1, h2, h3, h4⟩ := expandFields_split re refs pre f post orest hr
+        refine ⟨og ++ o1, o2, o3, ?_, h2, h3, ?_⟩
+        · unfold expandFields; rw [hg, h1]
+        · rw [← h, h4]; simp only [List.append_assoc]
+
+/-- **All other fields stay in place.** A field that is not a wildcard, regex or call over one
+appears unchanged in the result, after everything the fields before it expand to and before
+everything the fields after it expand to. -/
+theorem others_in_place (re : Str → Str → Bool) (refs : List ColRef) (pre : List Field) (f : Field)
+    (post out : List Field) (h : expandFields re refs (pre ++ f :: post) = .ok out) (hne : expands f = false) :
+    ∃ o1 o3, expandFields re refs pre = .ok o1 ∧ expandFields re refs post = .ok o3 ∧
+      out = o1 ++ f :: o3 := by
+  obtain ⟨o1, o2, o3, h1, h2, h3, h4⟩ := expandFields_split re refs pre f post out h
+  have := other_field_kept re refs f o2 h2 hne
+  subst this
+  exact ⟨o1, o3, h1, h3, by rw [h4]; simp⟩
+
+/-- The same for GROUP BY: a dimension that is not a wildcard or regex stays where it is. -/
+theorem other_dims_in_place (re : Str → Str → Bool) (names : List Str) (pre : List Expr) (d : Expr)
+    (post : List Expr) (hd : d.isWildOrRegex = false) :
+    expandDims re names (pre ++ d :: post) = expandDims re names pre ++ d :: expandDims re names post := by
+  induction pre with
+  | nil =>
+    simp only [List.nil_append, expandDims]
+    have : expandDim re names d = [d] := by
+      cases d <;> first | rfl | cases hd
+    rw [this]; rfl
+  | cons g pre ih =>
+    rw [List.cons_append]
+    simp only [expandDims]
+    rw [ih, List.append_assoc]
+
+/-- Nothing but fields, dimensions, the condition and the subqueries is touched. -/
+theorem rest_of_statement_kept (body : RewriteBody) (s s' : SelectStmt) (h : rewriteWith body s = .ok s') :
+    s'.target = s.target ∧ s'.sortFields = s.sortFields ∧ s'.limit = s.limit ∧ s'.offset = s.offset ∧
+    s'.slimit = s.slimit ∧ s'.soffset = s.soffset ∧ s'.isRawQuery = s.isRawQuery ∧ s'.fill = s.fill ∧
+    s'.fillValue = s.fillValue ∧ s'.location = s.location ∧ s'.timeAlias = s.timeAlias ∧
+    s'.omitTime = s.omitTime ∧ s'.stripName = s.stripName ∧ s'.emitName = s.emitName ∧
+    s'.dedupe = s.dedupe := by
+  cases s with
+  | mk fields target dims sources cond sortFields limit offset slimit soffset isRaw fill fillValue
+      location timeAlias omitTime stripName emitName dedupe =>
+    rw [rewriteWith] at h
+    split at h
+    · cases h
+    · split at h
+      · cases h
+      · simp only [Except.ok.injEq] at h
+        subst h
+        exact ⟨rfl, rfl, rfl, rfl, rfl, rfl, rfl, rfl, rfl, rfl, rfl, rfl, rfl, rfl, rfl⟩
+
+/-! ## Untyped references receive their schema type -/
+
+/-- **Untyped references receive their schema type**: an untyped reference gets the type
+`EvalType` finds in the sources (`Unknown` if none, or on a type error). -/
+theorem untyped_get_schema_type (ρ : Str → Option DataType) (v : Str) :
+    typeRef ρ v .Unknown = .varRef v ((ρ v).getD .Unknown) := by
+  unfold typeRef
+  simp
+
+/-- A `::field` reference gets the schema type too, unless the schema says it is a tag: then it
+is left as written. -/
+theorem anyfield_gets_schema_type (ρ : Str → Option DataType) (v : Str) :
+    typeRef ρ v .AnyField =
+      if (ρ v).getD .Unknown = .Tag then .varRef v .AnyField else .varRef v ((ρ v).getD .Unknown) := by
+  unfold typeRef
+  simp
+
+/-- A reference that was written with a type keeps it. -/
+theorem typed_refs_kept (ρ : Str → Option DataType) (v : Str) (t : DataType) (h1 : t ≠ .Unknown)
+    (h2 : t ≠ .AnyField) : typeRef ρ v t = .varRef v t := by
+  unfold typeRef
+  simp [h1, h2]
+
+/-- Against measurements the schema type of a name is the highest-precedence `MapType` answer
+over the sources (so a field in one measurement wins over a tag of the same name in another). -/
+theorem schema_type_over_measurements (tm : TypeMapper) (name : Str) :
+    ∀ (ms : List Measurement) (typ : DataType),
+      resolveSources tm (ms.map Source.measurement) name typ =
+        some ((ms.map (fun m => tm.mapType m name)).foldl raiseTo typ)
+  | [], _ => by simp [resolveSources]
+  | m :: ms, typ => by
+    simp only [List.map_cons, resolveSources, resolveSource, List.foldl_cons]
+    exact schema_type_over_measurements tm name ms _
+
+/-- Typing references changes nothing but the types: the names stay. -/
+theorem typeRef_name (ρ : Str → Option DataType) (v : Str) (t : DataType) :
+    ∃ t', typeRef ρ v t = .varRef v t' := by
+  unfold typeRef
+  split
+  · exact ⟨_, rfl⟩
+  · simp only
+    split <;> exact ⟨_, rfl⟩
+
 end InfluxQL.C12
